@@ -17,7 +17,7 @@ EXPLANATION = (
     "further callback may run.  C07.O3 the two policy functions (MagicRobot.onException, the selector's default) re-raise the active "
     "exception before any other effect when isFMSAttached() is false and return normally when it is true, even if reporting fails.  "
     "C07.O5 on every fault path the driver station is asked for the FMS state after the fault (a flag cached at mode entry or at the "
-    "last connection change is stale when the FMS attaches in between)."
+    "last connection change is stale when the FMS attaches in between).  The injected fault is the most general one: an instance of a class derived from BaseException whose arguments hold an unhashable list."
 )
 RULE = "one case = one (mode function, raising callback site, FMS flag, exit/configuration choices) path"
 EXHAUSTIVE = True
